@@ -2,6 +2,7 @@
 From Coq Require Import String List PArith.
 Import ListNotations.
 Require Import Verif.Chroot.Path Verif.Chroot.PathProps Verif.Chroot.Import Verif.Chroot.Confine Verif.Gen.ChrootOps.
+Require Import Verif.Chroot.Bytes Verif.Chroot.BytesProps Verif.Chroot.BytesConfine Verif.Chroot.ImportBytes Verif.Gen.ImportOrder.
 
 (* openAllowed = "the cleaned root is a prefix", for every root and path *)
 Theorem C18_allowed_is_prefix : forall root p, allowed root p = true <-> exists s, p = clean_abs root ++ s.
@@ -53,3 +54,154 @@ Theorem C18_import_same_file : forall root base rooted sp base' rooted' sp',
   import_open ops root base rooted sp = import_open ops root base' rooted' sp'.
 Proof. exact import_same_file. Qed.
 Print Assumptions C18_import_same_file.
+
+(* ================= byte level (Chroot/Bytes.v): raw strings, nothing pre-split ================= *)
+
+(* (a) filepath.Clean, transliterated on bytes, on ANY absolute string: its result is the rendering of a list of proper
+   names, and under every naming of the names that list is what the segment model computes on the split string *)
+Theorem C18_bytes_clean_is_segment_clean : forall nm s, go_is_abs s = true ->
+  exists P, go_clean s = render P /\ names P /\ map nm P = clean_abs (segs nm s).
+Proof. exact go_clean_abstraction. Qed.
+Print Assumptions C18_bytes_clean_is_segment_clean.
+
+(* (b) Clean is idempotent on absolute strings; read back with strings.Split its result has no "", "." or ".." segment *)
+Theorem C18_bytes_clean_idempotent : forall s, go_is_abs s = true -> go_clean (go_clean s) = go_clean s.
+Proof. exact go_clean_idempotent. Qed.
+Print Assumptions C18_bytes_clean_idempotent.
+
+Theorem C18_bytes_clean_segments : forall s, go_is_abs s = true -> go_clean s <> [sep] ->
+  exists P, go_split (go_clean s) = [] :: P /\ names P.
+Proof. exact go_clean_segments. Qed.
+Print Assumptions C18_bytes_clean_segments.
+
+(* (c) openAllowed as written (filepath.Rel's two-pointer scan, then Split(rel,"/")[0] == "..") agrees with the
+   segment-level `allowed`, for every absolute root string and every cleaned path, under any injective naming *)
+Theorem C18_bytes_allowed_agrees : forall nm root P, injective nm -> go_is_abs root = true -> names P ->
+  open_allowed root (render P) = allowed (segs nm root) (map nm P).
+Proof. exact allowed_abstraction. Qed.
+Print Assumptions C18_bytes_allowed_agrees.
+
+(* ... and so does every operation of the current table, on raw argument strings *)
+Theorem C18_bytes_ops_agree : forall nm o cwd root args, injective nm -> go_is_abs root = true ->
+  option_map (map (abs_path nm)) (b_run_op cwd root o args) = run_op (segs nm root) o (map (segs nm) args).
+Proof. exact b_segment_model_exact. Qed.
+Print Assumptions C18_bytes_ops_agree.
+
+Theorem C18_injective_naming_exists : injective encode.
+Proof. exact encode_injective. Qed.
+Print Assumptions C18_injective_naming_exists.
+
+(* (d) the property on strings: every operation of the CURRENT source, every absolute root string, every argument
+   string: each path handed to the inner filesystem is cleaned and is the cleaned root or starts with it plus "/" *)
+Theorem C18_bytes_all_ops_confined : forall o cwd root args ps,
+  go_is_abs root = true -> In o ops -> b_run_op cwd root o args = Some ps ->
+  Forall (fun p => go_clean p = p /\ b_under (go_clean root) p) ps.
+Proof. exact b_all_ops_confined. Qed.
+Print Assumptions C18_bytes_all_ops_confined.
+
+Theorem C18_bytes_no_dotdot_never_refused : forall o cwd root args,
+  go_is_abs root = true -> In o ops -> length args = length (op_args o) -> Forall no_dotdot args ->
+  b_run_op cwd root o args = Some (map (b_join cwd root) args).
+Proof. exact b_no_dotdot_never_refused. Qed.
+Print Assumptions C18_bytes_no_dotdot_never_refused.
+
+(* the fuel of the transliterated loops is enough wherever ChrootFs uses them *)
+Theorem C18_bytes_rel_never_out_of_fuel : forall root p, go_is_abs root = true -> go_is_abs p = true -> go_rel root p <> RelFuel.
+Proof. exact go_rel_fuel. Qed.
+Print Assumptions C18_bytes_rel_never_out_of_fuel.
+
+(* ================= relative root: NewChrootFs resolves it against the working directory ================= *)
+Theorem C18_relative_root_is_cwd_joined : forall cwd root0, go_is_abs cwd = true -> go_is_abs root0 = false ->
+  new_chroot cwd root0 = go_clean (cwd ++ sep :: root0) /\ go_clean (new_chroot cwd root0) = new_chroot cwd root0.
+Proof. exact new_chroot_relative. Qed.
+Print Assumptions C18_relative_root_is_cwd_joined.
+
+Theorem C18_any_root_confined : forall o cwd root0 args ps,
+  go_is_abs cwd = true -> In o ops -> b_chroot_op cwd root0 o args = Some ps ->
+  Forall (fun p => go_clean p = p /\ b_under (go_clean (new_chroot cwd root0)) p) ps.
+Proof. exact b_chroot_confined. Qed.
+Print Assumptions C18_any_root_confined.
+
+Theorem C18_any_root_no_dotdot_never_refused : forall o cwd root0 args,
+  go_is_abs cwd = true -> In o ops -> length args = length (op_args o) -> Forall no_dotdot args ->
+  b_chroot_op cwd root0 o args = Some (map (b_join cwd (new_chroot cwd root0)) args).
+Proof. exact b_chroot_no_dotdot_never_refused. Qed.
+Print Assumptions C18_any_root_no_dotdot_never_refused.
+
+(* ================= histories of operations on ONE ChrootFs instance ================= *)
+(* obligation against the current source (Gen table): nothing is kept between two calls *)
+Theorem C18_wrapper_stateless : chroot_state = [].
+Proof. exact wrapper_stateless. Qed.
+Print Assumptions C18_wrapper_stateless.
+
+Theorem C18_history_confined : forall root h,
+  Forall (fun oa => In (fst oa) ops) h ->
+  Forall (fun r => forall ps, r = Some ps -> Forall (fun p => exists s, p = clean_abs root ++ s) ps) (run_history root h).
+Proof. exact history_confined. Qed.
+Print Assumptions C18_history_confined.
+
+Theorem C18_bytes_history_confined : forall cwd root0 h,
+  go_is_abs cwd = true -> Forall (fun oa => In (fst oa) ops) h ->
+  Forall (fun r => forall ps, r = Some ps ->
+            Forall (fun p => go_clean p = p /\ b_under (go_clean (new_chroot cwd root0)) p) ps)
+         (b_run_history cwd root0 h).
+Proof. exact b_history_confined. Qed.
+Print Assumptions C18_bytes_history_confined.
+
+(* ================= import statements and the module argument on raw strings (Chroot/ImportBytes.v) ================= *)
+(* the listener's name construction (Split on "@", ".sysl" by filepath.Ext, base "." for a rooted text, filepath.Join
+   with filepath.Dir of the importing file) and the parser's treatment of the module argument, through ChrootFs.Open *)
+Theorem C18_bytes_import_confined : forall cwd root0 m text p, go_is_abs cwd = true ->
+  b_import_open ops cwd root0 m text = Some p -> go_clean p = p /\ b_under (go_clean (new_chroot cwd root0)) p.
+Proof. exact b_import_confined. Qed.
+Print Assumptions C18_bytes_import_confined.
+
+Theorem C18_bytes_module_confined : forall cwd root0 m p, go_is_abs cwd = true ->
+  b_module_open ops cwd root0 m = Some p -> go_clean p = p /\ b_under (go_clean (new_chroot cwd root0)) p.
+Proof. exact b_module_confined. Qed.
+Print Assumptions C18_bytes_module_confined.
+
+Theorem C18_bytes_open_no_dotdot_served : forall cwd root0 name, go_is_abs cwd = true -> no_dotdot name ->
+  b_open ops cwd root0 name = Some (b_join cwd (new_chroot cwd root0) name).
+Proof. exact b_open_no_dotdot_served. Qed.
+Print Assumptions C18_bytes_open_no_dotdot_served.
+
+(* ================= local names that look like remote ones ("sub.folder/one/two/dep.sysl") ================= *)
+(* obligation against the current source (Gen/ImportOrder.v): Parser.collectSpecs requests every name without the "//"
+   prefix as a local name. The position of the listener's own URL-likeness test relative to filepath.Join is a Gen fact
+   too (listener_remote_test); the model follows it, the theorems below hold for either position. *)
+Theorem C18_reader_name_guarded : reader_name_guard = Guarded.
+Proof. exact reader_name_is_guarded. Qed.
+Print Assumptions C18_reader_name_guarded.
+
+(* the reader's pattern (transliterated: looks_remote) never sends a guarded non-"//" name to the git retriever *)
+Theorem C18_guarded_name_never_to_retriever : forall name, dslash name = false ->
+  reader_is_remote (read_name Guarded name) = false.
+Proof. exact guarded_name_never_to_retriever. Qed.
+Print Assumptions C18_guarded_name_never_to_retriever.
+
+(* same file however spelled, on raw strings, including names below dotted directories: two names that the wrapper
+   joins to one path are read from the same inner path (or both refused), and neither is fetched *)
+Theorem C18_bytes_read_same_file : forall cwd root0 n1 n2,
+  go_is_abs cwd = true -> dslash n1 = false -> dslash n2 = false ->
+  b_join cwd (new_chroot cwd root0) n1 = b_join cwd (new_chroot cwd root0) n2 ->
+  b_read reader_name_guard ops cwd root0 n1 = b_read reader_name_guard ops cwd root0 n2 /\
+  exists r, b_read reader_name_guard ops cwd root0 n1 = ToFs r.
+Proof. exact b_read_same_file. Qed.
+Print Assumptions C18_bytes_read_same_file.
+
+Theorem C18_bytes_import_same_file : forall cwd root0 m1 t1 m2 t2, go_is_abs cwd = true ->
+  let n1 := import_local_name_at listener_remote_test listener_test_only_base_dot (go_dir (module_name m1)) t1 in
+  let n2 := import_local_name_at listener_remote_test listener_test_only_base_dot (go_dir (module_name m2)) t2 in
+  dslash n1 = false -> dslash n2 = false ->
+  b_join cwd (new_chroot cwd root0) n1 = b_join cwd (new_chroot cwd root0) n2 ->
+  b_import_read listener_remote_test listener_test_only_base_dot reader_name_guard ops cwd root0 m1 t1
+  = b_import_read listener_remote_test listener_test_only_base_dot reader_name_guard ops cwd root0 m2 t2.
+Proof. exact b_import_same_file. Qed.
+Print Assumptions C18_bytes_import_same_file.
+
+Theorem C18_bytes_import_read_confined : forall t od g cwd root0 m text p, go_is_abs cwd = true ->
+  b_import_read t od g ops cwd root0 m text = ToFs (Some p) ->
+  go_clean p = p /\ b_under (go_clean (new_chroot cwd root0)) p.
+Proof. exact b_import_read_confined. Qed.
+Print Assumptions C18_bytes_import_read_confined.
